@@ -31,6 +31,7 @@ var skelTrackedFields = map[string]bool{
 type skel struct {
 	toks []string
 	ren  map[string]string // local name -> v<k> (alpha-normalisation, see alpha.go)
+	args bool              // calls are emitted with their arguments (storage code: which value goes into which column)
 }
 
 func (k *skel) emit(s string) { k.toks = append(k.toks, alphaToken(s, k.ren)) }
@@ -65,7 +66,19 @@ func (k *skel) expr(e ast.Node) {
 		case *ast.CallExpr:
 			name := callName(x)
 			if name != "" && !skelIgnoreCalls[name] && !strings.HasPrefix(name, "log.") && !strings.HasPrefix(name, "slog.") {
-				k.emit("call " + name)
+				if k.args {
+					var as []string
+					for _, a := range x.Args {
+						if _, isFn := a.(*ast.FuncLit); isFn {
+							as = append(as, "func")
+						} else {
+							as = append(as, exprStr(a))
+						}
+					}
+					k.emit("call " + name + "(" + strings.Join(as, ", ") + ")")
+				} else {
+					k.emit("call " + name)
+				}
 			}
 		}
 		return true
